@@ -10,7 +10,8 @@ Calls (fields joined by `,`, calls by `;`; k = key, p = payload `i<int>` | `T` (
              iter iterm keys vals clr ent,k eoi,k,p eins,k,p erm,k goi,k,p ret,<pred> sort sortby,<kdesc|vasc>
              idx,k idxm,k iset,k,p ioi,k,p ext,k,p,... from,k,p,... into          pred: kne,k | int | lt,n | all | none
   vectors  : push,z pushf,z ins,i,z insf,i,z rep,i,z repf,i,z rm,i get,i getm,i len emp iter iterm clr
-             ret,<lt,n|odd|all|none> sortby,<asc|desc> sortkey ext,z,... from,z,... into idx,i iget,i iset,i,z
+             ret,<lt,n|odd|all|none> sortby,<asc|desc|mod3> sortkey ext,z,... from,z,... into idx,i iget,i iset,i,z
+             (sortby,mod3 = Array::sort_by comparing `x mod 3`; sortkey = Array::sort_by_key(x mod 3): comparators with ties)
 A call a container does not offer prints `na`; a panic inside a call prints `P`.
 
 The ORACLE does not look at the Coq model: it replays the history on a plain Python ordered
@@ -45,11 +46,13 @@ THEOREMS = [
     "C16_table / C16_inline / C16_inline_tablelike: forall h (no exclusion), outputs and final observation of the model = those of the reference ordered map",
     "C16_table_regression / C16_inline_regression / C16_inline_tablelike_regression: the former counterexamples (write/entry paths on a placeholder key) now agree with the reference",
     "C16_placeholder_calls: every call made in any reachable state answers as the reference does on the real entries",
-    "C16_array / C16_aot / C16_map_sorted / C16_map_ordered: forall h, outputs and final observation of the model = reference",
+    "C16_array / C16_aot / C16_map_sorted / C16_map_ordered: forall h, outputs and final observation of the model = reference (Array::sort_by / sort_by_key with any comparator of the vocabulary, incl. the tie-rich `x mod 3`, = the reference STABLE sort)",
     "C16_placeholder: len/is_empty/iter/get/contains_key/printed entries of Table, InlineTable and the TableLike view of InlineTable ignore Item::None entries, in every state",
 ]
 RULE = ("random call sequences of length <= 30 over keys {a,b,c} (payloads i0..i4, T, I) on each of the 7 container kinds, "
         "plus ALL histories of length <= 4 over keys {a,b} for a reduced call set per kind; "
+        "plus long containers with ties: arrays of 21..80 distinguishable integers sorted by `x mod 3` (sort_by / sort_by_key), tables and inline "
+        "tables of 21..60 keys with values from {0..3} sorted by value (sort_values_by, also after sort_values / a sort by key descending), then iter / get / remove; "
         "non-trivial = at least 3 calls and at least two calls addressing the same key / index")
 ASSUMPTIONS = [
     "IndexMap, BTreeMap and Vec are modelled by their functional specification (insertion-ordered / key-ordered association list, list); sort_by is a stable sort",
@@ -249,7 +252,7 @@ class RefVec:
                     "all": lambda x: True}.get(f[1], lambda x: False)
             v[:] = [x for x in v if keep(x)]; return "u"
         if n == "sortby":
-            v.sort(key=(lambda x: -x) if f[1] == "desc" else (lambda x: x)); return "u"
+            v.sort(key={"desc": lambda x: -x, "mod3": lambda x: x % 3}.get(f[1], lambda x: x)); return "u"
         if n == "sortkey":
             v.sort(key=lambda x: x % 3); return "u"
         if n == "ext":
@@ -345,7 +348,7 @@ def rand_vec_history(rng, kind, maxlen):
         elif n == "ret":
             op = "ret," + rng.choice(["lt,%d" % rng.randrange(6), "odd", "all", "none"])
         elif n == "sortby":
-            op = "sortby," + rng.choice(["asc", "desc"])
+            op = "sortby," + rng.choice(["asc", "desc", "mod3"])
         elif n in ("ext", "from"):
             op = ",".join([n] + [str(rng.randrange(6)) for _ in range(rng.randrange(4))])
         else:
@@ -375,6 +378,77 @@ EXH["map_ordered"] = EXH["map_sorted"]
 _ALL = []      # every generated case (for the lazy batches below)
 
 
+# ---- long containers with ties: a sort must be STABLE (std / indexmap sorts are insertion sorts up to 20 elements,
+# so an unstable variant only shows on more than 20 elements) ------------------------------------------------
+def long_vec_history(rng):
+    """an array of 21..80 integers over 3-4 residues mod 3 / few distinct values, all distinguishable (z = 3*j + r),
+    sorted by a key with ties, then observed through iter / get / remove(i)"""
+    n = rng.randrange(21, 81)
+    vals = [3 * j + rng.randrange(3) for j in rng.sample(range(200), n)]
+    ops = []
+    if rng.random() < 0.5:
+        ops.append("from," + ",".join(map(str, vals)))
+    else:
+        k = rng.randrange(1, n)
+        ops.append("ext," + ",".join(map(str, vals[:k])))
+        ops += ["push,%d" % z for z in vals[k:]]
+    for _ in range(rng.choice([1, 1, 2, 3])):
+        ops.append(rng.choice(["sortkey", "sortby,mod3", "sortkey", "sortby,mod3", "sortby,desc"]))
+        for _ in range(rng.randrange(0, 5)):
+            r = rng.random()
+            i = rng.randrange(n + 1)
+            if r < 0.3:
+                ops.append("get,%d" % i)
+            elif r < 0.55:
+                ops.append("rm,%d" % i)
+            elif r < 0.7:
+                ops.append("ins,%d,%d" % (i, 3 * rng.randrange(200, 300) + rng.randrange(3)))
+            elif r < 0.85:
+                ops.append("iter")
+            else:
+                ops.append("idx,%d" % i)
+    ops.append("iter")
+    return ops
+
+
+def long_map_history(rng, kind):
+    """a table / inline table of 21..60 keys whose values are drawn from a few integers (ties everywhere),
+    sorted by value (`sort_values_by`), possibly after a sort by key in the other direction, then observed"""
+    n = rng.randrange(21, 61)
+    keys = ["k%02d" % j for j in rng.sample(range(100), n)]
+    pay = lambda: rng.choice(["i0", "i1", "i2", "i3", "T" if kind == "table" else "I"] if rng.random() < 0.15 else ["i0", "i1", "i2", "i3"])
+    ops = []
+    if rng.random() < 0.4:
+        ops.append("ext," + ",".join("%s,%s" % (k, pay()) for k in keys))
+    else:
+        ops += ["ins,%s,%s" % (k, pay()) for k in keys]
+    for _ in range(rng.choice([1, 1, 2, 3])):
+        if rng.random() < 0.4:
+            ops.append(rng.choice(["sort", "sortby,kdesc"]))
+        ops.append("sortby,vasc")
+        for _ in range(rng.randrange(0, 5)):
+            r = rng.random()
+            k = rng.choice(keys)
+            if r < 0.3:
+                ops.append("rm,%s" % k)
+            elif r < 0.5:
+                ops.append("ins,%s,%s" % (k, pay()))
+            elif r < 0.65:
+                ops.append("ins,n%02d,%s" % (rng.randrange(100), pay()))
+            elif r < 0.85:
+                ops.append("iter")
+            else:
+                ops.append("get,%s" % k)
+    ops.append("iter")
+    return ops
+
+
+def mk_long(kind, ops):
+    c = mk_case(kind, ops, "long-ties")
+    c.meta["nt"] = True
+    return c
+
+
 def gen_cases(rng, tier):
     quick = tier == "quick"
     out = []
@@ -395,6 +469,12 @@ def gen_cases(rng, tier):
             else:
                 ops = rand_vec_history(rng, kind, 30)
             out.append(mk_case(kind, ops, "random"))
+    n_long = 400 if quick else 8000
+    for _ in range(n_long):
+        out.append(mk_long("array", long_vec_history(rng)))
+    for kind in ("table", "inline"):
+        for _ in range(n_long * 3 // 4):
+            out.append(mk_long(kind, long_map_history(rng, kind)))
     del _ALL[:]
     _ALL.extend(out)
     return out
